@@ -31,7 +31,7 @@ MAX_DISCARD = 0.6
 CASE_TIMEOUT = 300
 
 def plan (tier, seed):
-    n = 330 if tier == 'quick' else 6000
+    n = 520 if tier == 'quick' else 6000
     return [dict (i = i, seed = seed, tier = tier) for i in range (n)] + corpus.plan_cases (seed, tier, 2, 6, skip = corpus.OUTSIDE_RULES)
 # end def plan
 
